@@ -144,6 +144,7 @@ def run(repo, rep, tier):
     r5b = rep.rule('C18.R5b', 'no uncalled string method in a comparison')
 
     mgr = repo.cls(SM, 'WBEMSubscriptionManager')
+    recursion_forwards_parameters(repo, rep)
 
     # ---- R1 ---------------------------------------------------------------
     sites = pattern_sites(repo, SM)
@@ -621,3 +622,50 @@ def run(repo, rep, tier):
 
     # ---- R5 ---------------------------------------------------------------
     names.run_name_rules(repo, rep, r5, r5b, lambda f: f.file == SP)
+
+
+def recursion_forwards_parameters(repo, rep):
+    """C18.R8: the manager methods that accept one path or a list of paths
+    call themselves for each list item.  Such a call must hand on every
+    other parameter: a parameter that is left out silently takes its
+    default in the nested call (e.g. owned=True), so a permanent request
+    for a list of destinations is carried out - and recorded, and later
+    removed - as an owned one, and the owned-filter refusal is skipped."""
+    r8 = rep.rule('C18.R8', 'self-recursive calls over list items pass every '
+                  'parameter on')
+    SMF = 'pywbem/_subscription_manager.py'
+    mgr = repo.cls(SMF, 'WBEMSubscriptionManager')
+    for f in mgr.methods.values():
+        ps = [p for p in f.params if p != 'self']
+        for c in walk_no_nested(f.node):
+            if not (isinstance(c, ast.Call) and
+                    dotted(c.func) == 'self.' + f.name):
+                continue
+            r8.sites += 1
+            r8.functions.add(f.fq)
+            passed = {}
+            star = any(isinstance(a, ast.Starred) for a in c.args) or \
+                any(k.arg is None for k in c.keywords)
+            for i, a in enumerate(c.args):
+                if i < len(ps):
+                    passed[ps[i]] = norm(a)
+            for k in c.keywords:
+                if k.arg:
+                    passed[k.arg] = norm(k.value)
+            missing = [] if star else [p for p in ps if p not in passed]
+            r8.ob(not missing, '%s|%s' % (f.qualname, norm(c, 60)),
+                  {'passed': passed})
+            if missing:
+                rep.finding(r8, f.qualname, norm(c, 80), 'parameter-dropped',
+                            SMF, c.lineno,
+                            'the nested call for a list item does not pass '
+                            '%s: the item is processed with the default '
+                            'value instead of what the caller asked for '
+                            '(for owned: a permanent request becomes an '
+                            'owned one, is recorded in the owned list and '
+                            'deleted by remove_server(), and the refusal of '
+                            'permanent subscriptions on owned filters / '
+                            'destinations is skipped)' % ', '.join(missing))
+    if r8.sites < 3:
+        raise AnalysisError('C18.R8: only %d self-recursive calls found'
+                            % r8.sites)
